@@ -154,9 +154,18 @@ Section Safe.
     exec (terminate true c) s w [] = (Ok VUnit, s, closed_conn w c, []).
   Proof. unfold terminate. ex. reflexivity. Qed.
 
-  Lemma close_connection_q c s w :
+  Lemma notin_existsb c (l : list nat) : ~ In c l -> existsb (Nat.eqb c) l = false.
+  Proof.
+    intros H. destruct (existsb (Nat.eqb c) l) eqn:E; auto. apply existsb_exists in E.
+    destruct E as (x & Hx & He). apply Nat.eqb_eq in He. subst. contradiction.
+  Qed.
+
+  (* room in the queue for the record of connection [c], which is not itself waiting in the queue *)
+  Definition roomy (q0 : list rec) (c : nat) : Prop := Z.of_nat (length q0) < psize cf /\ ~ In c (qconns q0).
+
+  Lemma close_connection_q c s w : ~ In c (qconns (q s)) ->
     exec (close_connection true c true) s w [] = (Ok VUnit, s, closed_conn w c, []).
-  Proof. unfold close_connection. ex. rewrite terminate_q. ex. reflexivity. Qed.
+  Proof. intros H. unfold close_connection. ex. rewrite (notin_existsb _ _ H). ex. rewrite terminate_q. ex. reflexivity. Qed.
 
   (* a V-shaped python state: connection [c] checked out through the fairy held by the Connection *)
   Notation vstate q0 ov0 c rc tx no ni nw lg :=
@@ -167,7 +176,7 @@ Section Safe.
   Proof. intros H. apply andb_false_iff. right. apply Z.eqb_neq. lia. Qed.
 
   Lemma conn_invalidate_q q0 ov0 c rc tx no ni nw lg w :
-    Z.of_nat (length q0) < psize cf ->
+    roomy q0 c ->
     exec (conn_invalidate cf) (vstate q0 ov0 c rc tx no ni nw lg) w [] =
     (Ok VUnit,
      mkpst (q0 ++ [mkrec None false]) ov0 (Some (mkrec None false)) (Some (mkfairy false None)) false rc tx no (S ni) nw false lg,
@@ -175,14 +184,14 @@ Section Safe.
   Proof.
     intros Hroom. unfold conn_invalidate. ex.
     unfold fairy_invalidate. ex. unfold rec_invalidate. ex. unfold rec_close_impl. ex.
-    rewrite close_connection_q. ex.
+    rewrite close_connection_q by (cbn; first [exact (proj2 Hroom)|assumption]). ex.
     unfold finalize_fairy. ex. unfold rec_checkin. ex. unfold pool_return. ex.
-    rewrite (not_full _ Hroom). ex. reflexivity.
+    rewrite (not_full _ (proj1 Hroom)). ex. reflexivity.
   Qed.
 
   (* _handle_dbapi_exception(CancelledError) on a valid connection: invalidate, re-raise *)
   Lemma handle_cancel_q q0 ov0 c rc tx no ni nw lg w cursor :
-    Z.of_nat (length q0) < psize cf ->
+    roomy q0 c ->
     exec (handle_dbapi_exception cf ECancelled cursor) (vstate q0 ov0 c rc tx no ni nw lg) w [] =
     (Raise ECancelled,
      mkpst (q0 ++ [mkrec None false]) ov0 (Some (mkrec None false)) (Some (mkfairy false None)) false rc tx no (S ni) nw false lg,
@@ -194,15 +203,15 @@ Section Safe.
 
   (* the patched except-arm of _finalize_fairy after a cancelled rollback-on-return *)
   Lemma reset_cancel_handler_q q0 ov0 c rc tx no ni nw lg w :
-    Z.of_nat (length q0) < psize cf ->
+    roomy q0 c ->
     exec (finalize_except cf false true ECancelled) (vstate q0 ov0 c rc tx no ni nw lg) w [] =
     (Raise ECancelled,
      mkpst (q0 ++ [mkrec None false]) ov0 (Some (mkrec None false)) (Some (mkfairy false None)) true rc tx no (S ni) nw false lg,
      closed_conn w c, []).
   Proof.
     intros Hroom. unfold finalize_except. ex. unfold rec_invalidate. ex. unfold rec_close_impl. ex.
-    rewrite close_connection_q. ex. unfold rec_checkin. ex. unfold pool_return. ex.
-    rewrite (not_full _ Hroom). ex. reflexivity.
+    rewrite close_connection_q by (cbn; first [exact (proj2 Hroom)|assumption]). ex. unfold rec_checkin. ex. unfold pool_return. ex.
+    rewrite (not_full _ (proj1 Hroom)). ex. reflexivity.
   Qed.
 
   (* ---- single-cancellation runs ---- *)
@@ -222,9 +231,6 @@ Section Safe.
   Qed.
 
   (* ---- invariants ---- *)
-  Definition qconns (q : list rec) : list nat :=
-    flat_map (fun r => match r_conn r with Some c => [c] | None => [] end) q.
-
   (* connection [c] is checked out (python state [vstate q0 ov0 c ...]) *)
   Record Vp (q0 : list rec) (ov0 : Z) (c : nat) (tx : option bool) (no ni : nat) (w : world) : Prop := {
     v_room : Z.of_nat (length q0) < psize cf;
@@ -330,7 +336,7 @@ Section Safe.
     (mkpst (q0 ++ [mkrec None false]) ov0 (Some (mkrec None false)) (Some (mkfairy false None)) false rc tx no (S ni) nw false lg).
 
   Lemma rollback_impl_S q0 ov0 c rc tx no ni nw lg w cs :
-    Z.of_nat (length q0) < psize cf -> d_open (getc w c) = true -> (ncancel cs <= 1)%nat ->
+    roomy q0 c -> d_open (getc w c) = true -> (ncancel cs <= 1)%nat ->
     (exists w1 cs1, exec (rollback_impl cf) (vstate q0 ov0 c rc tx no ni nw lg) w cs =
                     (Ok VUnit, vstate q0 ov0 c rc tx no ni nw lg, w1, cs1) /\ same_except c w w1 /\
                     d_open (getc w1 c) = true /\ d_txn (getc w1 c) = false /\ (ncancel cs1 <= 1)%nat)
@@ -353,14 +359,14 @@ Section Safe.
     Done s' w' /\ n_warn s' = nw /\
     ((o = Ok VUnit /\ (ncancel cs' <= 1)%nat) \/ (o = Raise ECancelled /\ ncancel cs' = 0%nat)).
   Proof.
-    intros V Hc. pose proof (v_room _ _ _ _ _ _ _ V) as Hroom. pose proof (v_open _ _ _ _ _ _ _ V) as Ho.
+    intros V Hc. pose proof (conj (v_room _ _ _ _ _ _ _ V) (v_notin _ _ _ _ _ _ _ V)) as Hroom. pose proof (v_open _ _ _ _ _ _ _ V) as Ho.
     destruct tx as [[|]|].
     - (* a transaction is active: Transaction.close() rolls back, the fairy is returned without reset *)
       unfold conn_close. ex. unfold txn_close_impl. ex.
       destruct (rollback_impl_S q0 ov0 c rc (Some true) no ni nw lg w cs Hroom Ho Hc)
         as [(w1 & cs1 & E & F & O & T & H1) | (w1 & cs1 & E & F & H0)]; rewrite E; ex.
       + unfold fairy_close, finalize_fairy. ex. unfold fairy_reset. ex.
-        unfold rec_checkin. ex. unfold pool_return. ex. rewrite (not_full _ Hroom). ex.
+        unfold rec_checkin. ex. unfold pool_return. ex. rewrite (not_full _ (proj1 Hroom)). ex.
         split; [|split; [reflexivity|left; auto]].
         eapply done_returned; eauto.
       + split; [|split; [reflexivity|right; auto]].
@@ -370,7 +376,7 @@ Section Safe.
       unfold conn_close. ex. unfold fairy_close, finalize_fairy. ex. unfold fairy_reset. ex.
       destruct (dbapi_rollback_S c (vstate q0 ov0 c rc None no ni nw lg) w cs Ho Hc)
         as [(w1 & cs1 & E & F & O & T & H1) | (w1 & cs1 & E & F & O & H0)]; rewrite E; ex.
-      + unfold rec_checkin. ex. unfold pool_return. ex. rewrite (not_full _ Hroom). ex.
+      + unfold rec_checkin. ex. unfold pool_return. ex. rewrite (not_full _ (proj1 Hroom)). ex.
         split; [|split; [reflexivity|left; auto]].
         eapply done_returned; eauto.
       + quiet_rw H0. rewrite (reset_cancel_handler_q q0 ov0 c rc None no ni nw lg w1 Hroom). ex.
@@ -429,13 +435,13 @@ Section Safe.
   Qed.
 
   Lemma rec_checkin_failed_q q1 ov1 oc b f cfy rc tx no ni nw om lg w :
-    Z.of_nat (length q1) < psize cf ->
+    Z.of_nat (length q1) < psize cf -> match oc with Some c => ~ In c (qconns q1) | None => True end ->
     exec (rec_checkin_failed cf false) (mkpst q1 ov1 (Some (mkrec oc b)) f cfy rc tx no ni nw om lg) w [] =
     (Ok VUnit, mkpst (q1 ++ [mkrec None false]) ov1 (Some (mkrec None false)) f cfy rc tx no (S ni) nw om lg,
      match oc with Some c => closed_conn w c | None => w end, []).
   Proof.
-    intros Hroom. unfold rec_checkin_failed. ex. unfold rec_invalidate. ex. destruct oc as [c|]; ex.
-    - unfold rec_close_impl. ex. rewrite close_connection_q. ex. unfold rec_checkin. ex. unfold pool_return. ex.
+    intros Hroom Hnot. unfold rec_checkin_failed. ex. unfold rec_invalidate. ex. destruct oc as [c|]; ex.
+    - unfold rec_close_impl. ex. rewrite close_connection_q by (cbn; first [exact (proj2 Hroom)|assumption]). ex. unfold rec_checkin. ex. unfold pool_return. ex.
       rewrite (not_full _ Hroom). ex. reflexivity.
     - unfold rec_checkin. ex. unfold pool_return. ex. rewrite (not_full _ Hroom). ex. reflexivity.
   Qed.
@@ -517,13 +523,13 @@ Section Safe.
         * left. exists rest, ov0, (nconn w), (S no), ni. split; [reflexivity|]. split; [reflexivity|]. split; auto.
           destruct (qok_new rest w (mkd true false []) Hrest) as [Hq1 Hni].
           constructor; fin.
-        * quiet_any. rewrite rec_checkin_failed_q by lia. ex. right. split; [reflexivity|]. split; [|auto].
+        * quiet_any. rewrite rec_checkin_failed_q by (try lia; exact I). ex. right. split; [reflexivity|]. split; [|auto].
           constructor; cbn [q ov n_out n_in oom cur_fairy cur r_fairy]; try fin.
           -- apply qok_app; [|split; cbn; auto]. destruct Hw as [->| ->]; auto. apply qok_new; auto.
           -- rewrite qconns_app. cbn. rewrite app_nil_r. auto.
           -- destruct Hw as [->| ->]; auto. apply notxn_new; auto.
-        * quiet_any. rewrite rec_checkin_failed_q by lia. ex. right. split; [reflexivity|]. split; [|auto].
-          destruct (qok_new rest w (mkd true false []) Hrest) as [Hq1 Hni].
+        * destruct (qok_new rest w (mkd true false []) Hrest) as [Hq1 Hni].
+          quiet_any. rewrite rec_checkin_failed_q by (try lia; exact Hni). ex. right. split; [reflexivity|]. split; [|auto].
           constructor; cbn [q ov n_out n_in oom cur_fairy cur r_fairy]; try fin.
           -- apply qok_app; [|split; cbn; auto]. eapply qok_frame; [exact Hq1|exact Hni|apply closed_frame].
           -- rewrite qconns_app. cbn. rewrite app_nil_r. auto.
@@ -540,7 +546,7 @@ Section Safe.
                        o = Raise ECancelled /\ ncancel cs' = 0%nat).
 
   Lemma new_cursor_S q0 ov0 c rc tx no ni nw lg w cs :
-    Z.of_nat (length q0) < psize cf -> d_open (getc w c) = true -> (ncancel cs <= 1)%nat ->
+    roomy q0 c -> d_open (getc w c) = true -> (ncancel cs <= 1)%nat ->
     (exists cs1, exec (new_cursor cf) (vstate q0 ov0 c rc tx no ni nw lg) w cs =
                  (Ok (VConn c), vstate q0 ov0 c rc tx no ni nw lg, w, cs1) /\ (ncancel cs1 <= 1)%nat)
     \/ (exists w1 cs1, exec (new_cursor cf) (vstate q0 ov0 c rc tx no ni nw lg) w cs =
@@ -586,7 +592,7 @@ Section Safe.
   Qed.
 
   Lemma exec_single_S q0 ov0 c rc tx no ni nw lg w cs st :
-    Z.of_nat (length q0) < psize cf -> tx <> Some false -> d_open (getc w c) = true -> (ncancel cs <= 1)%nat ->
+    roomy q0 c -> tx <> Some false -> d_open (getc w c) = true -> (ncancel cs <= 1)%nat ->
     op_post q0 ov0 c rc no ni nw lg w (exec (exec_single cf c st) (vstate q0 ov0 c rc tx no ni nw lg) w cs).
   Proof.
     intros Hroom Htx Ho Hc. unfold exec_single. ex. unfold cursor_execute. ex.
@@ -632,7 +638,7 @@ Section Safe.
   Qed.
 
   Lemma execute_noab_S q0 ov0 c rc tx no ni nw lg w cs st :
-    Z.of_nat (length q0) < psize cf -> tx <> Some false -> d_open (getc w c) = true -> (ncancel cs <= 1)%nat ->
+    roomy q0 c -> tx <> Some false -> d_open (getc w c) = true -> (ncancel cs <= 1)%nat ->
     op_post q0 ov0 c rc no ni nw lg w (exec (execute_context cf munit st) (vstate q0 ov0 c rc tx no ni nw lg) w cs).
   Proof.
     intros Hroom Htx Ho Hc. unfold execute_context. ex.
@@ -644,7 +650,7 @@ Section Safe.
 
   (* RootTransaction.__init__: BEGIN through the "begin" listener *)
   Lemma root_transaction_S q0 ov0 c rc no ni nw lg w cs :
-    Z.of_nat (length q0) < psize cf -> d_open (getc w c) = true -> (ncancel cs <= 1)%nat ->
+    roomy q0 c -> d_open (getc w c) = true -> (ncancel cs <= 1)%nat ->
     op_post q0 ov0 c rc no ni nw lg w (exec (root_transaction cf) (vstate q0 ov0 c rc None no ni nw lg) w cs).
   Proof.
     intros Hroom Ho Hc. unfold root_transaction. rewrite exec_seq.
@@ -659,7 +665,7 @@ Section Safe.
   Qed.
 
   Lemma conn_begin_S q0 ov0 c rc tx no ni nw lg w cs :
-    Z.of_nat (length q0) < psize cf -> tx <> Some false -> d_open (getc w c) = true -> (ncancel cs <= 1)%nat ->
+    roomy q0 c -> tx <> Some false -> d_open (getc w c) = true -> (ncancel cs <= 1)%nat ->
     op_post q0 ov0 c rc no ni nw lg w (exec (conn_begin cf) (vstate q0 ov0 c rc tx no ni nw lg) w cs).
   Proof.
     intros Hroom Htx Ho Hc. unfold conn_begin. ex. destruct tx as [a|]; ex.
@@ -669,7 +675,7 @@ Section Safe.
   Qed.
 
   Lemma conn_execute_S q0 ov0 c rc tx no ni nw lg w cs st :
-    Z.of_nat (length q0) < psize cf -> tx <> Some false -> d_open (getc w c) = true -> (ncancel cs <= 1)%nat ->
+    roomy q0 c -> tx <> Some false -> d_open (getc w c) = true -> (ncancel cs <= 1)%nat ->
     op_post q0 ov0 c rc no ni nw lg w (exec (conn_execute cf st) (vstate q0 ov0 c rc tx no ni nw lg) w cs).
   Proof.
     intros Hroom Htx Ho Hc. unfold conn_execute, execute_context. ex.
@@ -704,7 +710,7 @@ Section Safe.
   Qed.
 
   Lemma conn_commit_S q0 ov0 c rc tx no ni nw lg w cs :
-    Z.of_nat (length q0) < psize cf -> tx <> Some false -> d_open (getc w c) = true -> (ncancel cs <= 1)%nat ->
+    roomy q0 c -> tx <> Some false -> d_open (getc w c) = true -> (ncancel cs <= 1)%nat ->
     op_post q0 ov0 c rc no ni nw lg w (exec (conn_commit cf) (vstate q0 ov0 c rc tx no ni nw lg) w cs).
   Proof.
     intros Hroom Htx Ho Hc. unfold conn_commit. ex.
@@ -721,7 +727,7 @@ Section Safe.
   Qed.
 
   Lemma conn_rollback_S q0 ov0 c rc tx no ni nw lg w cs :
-    Z.of_nat (length q0) < psize cf -> tx <> Some false -> d_open (getc w c) = true -> (ncancel cs <= 1)%nat ->
+    roomy q0 c -> tx <> Some false -> d_open (getc w c) = true -> (ncancel cs <= 1)%nat ->
     op_post q0 ov0 c rc no ni nw lg w (exec (conn_rollback cf) (vstate q0 ov0 c rc tx no ni nw lg) w cs).
   Proof.
     intros Hroom Htx Ho Hc. unfold conn_rollback. ex.
@@ -758,7 +764,7 @@ Section Safe.
   Qed.
 
   Lemma op_body_S q0 ov0 c rc tx no ni nw lg w cs o :
-    Z.of_nat (length q0) < psize cf -> tx <> Some false -> d_open (getc w c) = true -> (ncancel cs <= 1)%nat ->
+    roomy q0 c -> tx <> Some false -> d_open (getc w c) = true -> (ncancel cs <= 1)%nat ->
     op_post q0 ov0 c rc no ni nw lg w (exec (op_body cf async_api o) (vstate q0 ov0 c rc tx no ni nw lg) w cs).
   Proof.
     intros Hroom Htx Ho Hc. destruct o; cbn [op_body].
@@ -805,7 +811,7 @@ Section Safe.
   Qed.
 
   Lemma run_ops_S q0 ov0 c rc no ni nw ops : forall tx lg w cs,
-    Z.of_nat (length q0) < psize cf -> tx <> Some false -> d_open (getc w c) = true -> (ncancel cs <= 1)%nat ->
+    roomy q0 c -> tx <> Some false -> d_open (getc w c) = true -> (ncancel cs <= 1)%nat ->
     body_post q0 ov0 c rc no ni nw w (exec (run_ops cf async_api ops) (vstate q0 ov0 c rc tx no ni nw lg) w cs).
   Proof.
     induction ops as [|o rest IH]; intros tx lg w cs Hroom Htx Ho Hc; cbn [run_ops].
@@ -885,7 +891,7 @@ Section Safe.
       try (split; [exact D1|split; [exact Hw|split; [lia|auto]]]).
     - (* async with engine.connect() as conn: the close is shielded *)
       rewrite exec_finally.
-      pose proof (run_ops_S q1 ov1 c true no1 ni1 nw ops None lg w1 cs1 (v_room _ _ _ _ _ _ _ V)
+      pose proof (run_ops_S q1 ov1 c true no1 ni1 nw ops None lg w1 cs1 (conj (v_room _ _ _ _ _ _ _ V) (v_notin _ _ _ _ _ _ _ V))
                     ltac:(discriminate) (v_open _ _ _ _ _ _ _ V) H1) as P.
       destruct (exec (run_ops cf async_api ops) (vstate q1 ov1 c true None no1 ni1 nw lg) w1 cs1) as [[[o2 s2] w2] cs2].
       rewrite exec_aexit, exec_spawn_false.
@@ -900,7 +906,7 @@ Section Safe.
         (split; [exact Q1|split; [exact Q2|split; [cbn; lia|auto]]]).
     - (* conn = await engine.connect(); try: ... finally: await conn.close() *)
       rewrite exec_finally.
-      pose proof (run_ops_S q1 ov1 c true no1 ni1 nw ops None lg w1 cs1 (v_room _ _ _ _ _ _ _ V)
+      pose proof (run_ops_S q1 ov1 c true no1 ni1 nw ops None lg w1 cs1 (conj (v_room _ _ _ _ _ _ _ V) (v_notin _ _ _ _ _ _ _ V))
                     ltac:(discriminate) (v_open _ _ _ _ _ _ _ V) H1) as P.
       destruct (exec (run_ops cf async_api ops) (vstate q1 ov1 c true None no1 ni1 nw lg) w1 cs1) as [[[o2 s2] w2] cs2].
       rewrite exec_spawn_false.
@@ -917,15 +923,19 @@ Section Safe.
      await, so the DBAPI connection is detached and terminated (force-closed) and the record goes
      back empty; the "non-checked-in connection" warning is emitted *)
   Lemma gc_valid q0 ov0 c rc tx no ni nw lg w cs :
-    Z.of_nat (length q0) < psize cf ->
+    roomy q0 c ->
     exec (gc_collect cf) (vstate q0 ov0 c rc tx no ni nw lg) w cs =
     (Ok VUnit,
      mkpst (q0 ++ [mkrec None false]) ov0 (Some (mkrec None false)) None false false None no (S ni) (S nw) false lg,
      closed_conn w c, cs).
   Proof.
     intros Hroom. unfold gc_collect. ex. unfold finalize_fairy. ex. unfold fairy_reset. ex.
-    unfold fairy_detach. ex. unfold pool_return. ex. rewrite (not_full _ Hroom). ex.
-    unfold close_connection. ex. unfold terminate. rewrite exec_await_nosusp by reflexivity. ex.
+    unfold fairy_detach. ex. unfold pool_return. ex. rewrite (not_full _ (proj1 Hroom)). ex.
+    unfold close_connection. ex.
+    assert (Hn : existsb (Nat.eqb c) (qconns (q0 ++ [mkrec None false])) = false).
+    { apply notin_existsb. rewrite qconns_app. cbn. rewrite app_nil_r. exact (proj2 Hroom). }
+    unfold qconns in Hn. rewrite Hn. ex.
+    unfold terminate. rewrite exec_await_nosusp by reflexivity. ex.
     unfold warn. ex. reflexivity.
   Qed.
 
@@ -941,12 +951,12 @@ Section Safe.
     cbn [block]. rewrite exec_seq, exec_spawn_false.
     destruct (exec (engine_connect cf) (mkpst q0 ov0 cu f cfy rc tx no ni nw false lg) w cs) as [[[o1 s1] w1] cs1].
     destruct Hconn as [(q1 & ov1 & c & no1 & ni1 & -> & -> & V & H1) | (-> & D1 & Hw & _ & H0)].
-    - pose proof (run_ops_S q1 ov1 c true no1 ni1 nw ops None lg w1 cs1 (v_room _ _ _ _ _ _ _ V)
+    - pose proof (run_ops_S q1 ov1 c true no1 ni1 nw ops None lg w1 cs1 (conj (v_room _ _ _ _ _ _ _ V) (v_notin _ _ _ _ _ _ _ V))
                     ltac:(discriminate) (v_open _ _ _ _ _ _ _ V) H1) as P.
       destruct (exec (run_ops cf async_api ops) (vstate q1 ov1 c true None no1 ni1 nw lg) w1 cs1) as [[[o2 s2] w2] cs2].
       unfold body_post in P.
       destruct P as [(tx' & lg' & -> & B & F & O & Dd) | (tx' & lg' & w3 & -> & -> & F & -> & H0)].
-      + rewrite gc_valid by (apply (v_room _ _ _ _ _ _ _ V)). cbn [n_warn].
+      + rewrite gc_valid by (exact (conj (v_room _ _ _ _ _ _ _ V) (v_notin _ _ _ _ _ _ _ V))). cbn [n_warn].
         split; [|split; [lia|destruct Dd as [[_ ?]|[_ ?]]; lia]].
         assert (Dn : Done (mkpst (q1 ++ [mkrec None false]) ov1 (Some (mkrec None false)) None false false None no1 (S ni1) (S nw) false lg')
                           (closed_conn w2 c)).
